@@ -470,13 +470,14 @@ fn run(ctx: &mut Ctx) {
         corpus: true,
         corpus_max_len: t.pick(2048, 8192),
         random_atoms: t.pick(30_000, 1_500_000),
+        scale_max: t.pick(256, 1024),
         ..Plan::default()
     };
     for_each_input(ctx, &plan, &mut |ctx, input, src, r| {
         let fmin = if matches!(input.first(), Some(0xEF) | Some(0xFE) | Some(0xFF) | Some(0)) { 4 } else { 0 };
         let cfg = CONFIGS[r.below(4)];
-        let big = src == Src::Corpus;
-        let pieces: &[usize] = if big { &[7, 61] } else { &[1, 3, 7] };
+        let big = src == Src::Corpus || src == Src::Scale;
+        let pieces: &[usize] = if src == Src::Scale { &[31, 32, 33, 64, 128] } else if big { &[7, 61] } else { &[1, 3, 7] };
         for &piece in pieces {
             let cuts = cuts_for_piece(input.len(), piece, fmin);
             if !enumerate(ctx, &mut loc, input, cfg, &cuts, None, r) {
